@@ -28,7 +28,7 @@ RULE = ("alignments of 1..8 rows, L in {1,9,10,11,49,50,51,59,60,61,79,80,81,119
         "auto / forced, lists of 1..4 alignments for multi-Phylip, chains of 2..5 formats, auto-detection, plain/.gz/.xz "
         "files, rows spelling Nexus reserved words; non-trivial = L within 1 of a multiple of 10/50/60/80 or more than one block")
 
-MODELLED = {"fasta", "phylip", "stockholm", "clustal"}
+MODELLED = {"fasta", "phylip", "stockholm", "clustal", "nexus"}
 for _f in ["phylip", "nexus", "clustal", "stockholm"]:
     if _f not in MODELLED:
         PARTIAL.append("no Lean writer/parser model yet for %s: the round trip is checked on the implementation by the "
